@@ -4,7 +4,6 @@ package main
 
 import (
 	"os"
-	"runtime/pprof"
 	"strconv"
 
 	"verif/harness/mon"
@@ -19,11 +18,6 @@ func devN(n int) int {
 }
 
 func main() {
-	if pf := os.Getenv("DOWNMON_PROF"); pf != "" {
-		f, _ := os.Create(pf)
-		pprof.StartCPUProfile(f)
-		defer pprof.StopCPUProfile()
-	}
 	mon.Main("downmon", map[string]mon.PropFunc{
 		"C33": runC33,
 		"C34": runC34,
